@@ -155,7 +155,7 @@ def dump_simple(k, r):
     return '?'
 
 
-def run_history(s, ctx, hseed, nsteps, force_zero_did=False, wrap=False):
+def run_history(s, ctx, hseed, nsteps, force_zero_did=False, wrap=False, big=False):
     import random
     from .. import clientlib as cl, enclib, hist
     from udsoncan import MemoryLocation, DataFormatIdentifier
@@ -197,14 +197,18 @@ def run_history(s, ctx, hseed, nsteps, force_zero_did=False, wrap=False):
             steps = [('wdbi', 0, bytes(2)), ('rdbi', [0])]
         if wrap:
             steps = [('download', 700)]       # enough one-to-three byte blocks for the block sequence counter to wrap past 0xFF
+        if big:
+            steps = [('download', 9000)]      # room for blocks longer than the 4095 bytes the ECU announces (the block length is the caller's)
         for step in range(nsteps):
             # ---- choose the operation
             if steps:
                 op = steps.pop(0)
             else:
                 r = rng.random()
-                if wrap and xfer is not None and not xfer.get('up') and xfer['sent'] < xfer['total'] and rng.random() < 0.9:
+                if (wrap or big) and xfer is not None and not xfer.get('up') and xfer['sent'] < xfer['total'] and rng.random() < 0.9:
                     op = ('block',)
+                elif big and xfer is not None and not xfer.get('up') and xfer['sent'] >= xfer['total']:
+                    op = ('exit',)
                 elif r < 0.10:
                     op = ('config',)
                 elif r < 0.30:
@@ -338,7 +342,7 @@ def run_history(s, ctx, hseed, nsteps, force_zero_did=False, wrap=False):
                         ml.memorysize = rng.choice([1, 2, 4, 7, 16])
                 else:
                     a = rng.choice([0, 0x10, 0x2000, 0xFFFF, 0x12345678, rng.getrandbits(16), rng.getrandbits(rng.choice(W))])
-                    z = rng.choice([1, 2, 4, 7, 16, 300, 900]) if op[0] == 'download' else rng.choice([1, 2, 4, 7, 16])
+                    z = rng.choice([1, 2, 4, 7, 16, 300, 900] + ([5000] if rng.random() < 0.25 else [])) if op[0] == 'download' else rng.choice([1, 2, 4, 7, 16])   # 5000: room for a block longer than the 4095 the ECU announces
                     if len(op) > 1:
                         a, z = 0x4000, op[1]
                     mode = rng.choice(['auto', 'auto', 'explicit']) if len(op) == 1 else 'auto'
@@ -396,10 +400,13 @@ def run_history(s, ctx, hseed, nsteps, force_zero_did=False, wrap=False):
                             xfer = {'addr': a, 'total': z, 'sent': 0, 'seq': 1, 'buf': b''}
             elif op[0] == 'block':
                 n = min(xfer['total'] - xfer['sent'], rng.choice([1, 1, 2, 3] if wrap else [1, 1, 2, 3, 8]))
+                if xfer['total'] >= 4200 and (big or rng.random() < 0.6):
+                    n = min(xfer['total'] - xfer['sent'], rng.choice([4094, 4095, 4096, 4500]))      # the block length is the caller's: the client passes it on as it is
+                    s.count('block longer than 4 KiB')
                 blk = bytes(rng.randrange(256) for _ in range(n))
                 seq = xfer['seq'] if rng.random() < 0.93 else (xfer['seq'] + 1) % 256
                 e = ('td', seq, blk)
-                desc = 'transfer_data(%d, %s)' % (seq, blk.hex())
+                desc = 'transfer_data(%d, %s)' % (seq, blk.hex() if len(blk) <= 16 else '%d bytes %s..' % (len(blk), blk[:4].hex()))
                 line = 'k=simple entry=%s' % hist.entry_str(e)
                 fn = lambda e=e: hist.invoke_entry(client, e)
                 dump = lambda r: dump_simple('td', r)
@@ -436,12 +443,18 @@ def run_history(s, ctx, hseed, nsteps, force_zero_did=False, wrap=False):
                 fn = lambda e=e: hist.invoke_entry(client, e)
                 dump = lambda r: dump_simple('te', r)
 
-                def post(ok, r):
+                complete = xfer is not None and not xfer.get('up') and xfer['sent'] == xfer['total'] and len(xfer['buf']) == xfer['total']
+
+                def post(ok, r, complete=complete):
                     nonlocal xfer
                     if ok and xfer is not None:
                         if not xfer.get('up'):
                             shadow.write(xfer['addr'], xfer['buf'])
                         xfer = None
+                    elif complete and not ok and not late['on']:
+                        # every block was acknowledged and together they are exactly the announced size: the ECU must have the whole image
+                        s.fail({'site': 'request_transfer_exit', 'history': hseed, 'step': step, 'input': ' ; '.join(trail[-12:]), 'class': 'blocks acknowledged but not reassembled',
+                                'observed': 'exit refused after %d acknowledged bytes' % xfer['sent'], 'required': 'the ECU holds the %d bytes that were pushed and commits them' % xfer['total']})
             else:
                 e = op[1]
                 desc = hist.entry_str(e)
@@ -523,6 +536,7 @@ def suite_history(ctx):
     s = Suite('history')
     base = ctx.rng.randrange(1 << 30)
     run_history(s, ctx, 0, 2, force_zero_did=True)            # corpus: the documented 0x0000 / default codec / zero value ambiguity
+    run_history(s, ctx, 1, 12, big=True)                      # corpus: a download pushed in blocks longer than the announced maximum, then exit
     n = ctx.n(300, 4000)
     for i in range(n):
         long_ = (i % 25 == 0)
